@@ -15,7 +15,8 @@ def check(ctx):
         "has its later span sets delivered (stale path); R7 a scope refused at the scope limit leaves a trace in the stack's "
         "state (known finding K4: it does not, so spans recorded under the refused parent are delivered under the enclosing one); R8 the "
         "sampling flag of every token item is copied from its source (a root's from its SpanContext): it never depends on whether "
-        "a command could be queued.")
+        "a command could be queued; R9 only mount_danglings appends events / properties to a finished record, keyed by the id they were "
+        "attached under (leftovers of a span that was lost are not adopted by another record).")
     ctx.not_decided = "correctness of what is delivered during an episode and recovery after the queue drains (runtime)."
     facts = ctx.facts("E")
     scopes.rule_bounded_writes(ctx, facts, "R1")
@@ -40,6 +41,9 @@ def check(ctx):
     # depend on the outcome of a send (a root that turns unsampled when its StartCollect is refused loses the whole trace)
     from .. import provrules
     provrules.rule_token_items(ctx, facts, "R8", fields=("is_sampled",))
+    # ... and what an overload leaves without its span (attachments whose target's set was refused) is dropped with the trace, not
+    # handed to another record
+    provrules.rule_record_attachments_only_mounted(ctx, facts, "R9")
     caps = scopes.rule_capacities(ctx, facts, "R5")
     ctx.analysed.setdefault("E", {})["capacities"] = caps
 
